@@ -186,6 +186,81 @@ def real_layers(rep, rng):
       import traceback
       rep.violation(f"real-raises-{i}", f"{desc}: {type(e).__name__}: {str(e)[:300]} @ {traceback.format_exc()[-300:]}", {"model": desc})
   rep.note(real_folded_layers_equal=n_layer, unfolded_models_equal=n_unfold, real_models=n)
+  # ---- the converter: which convolutions are folded.  Folding replaces conv -> batch norm by one layer whose output is the NORMALISED
+  # tensor, so it is only sound when the batch norm is the convolution's ONLY consumer.  convert_to_folded_model (real code, graph shims)
+  # on branched Keras models; the expected fold list and the expected topology are computed from the model's own connectivity.
+  import tensorflow.keras.layers as KL
+  from tensorflow.keras import Model as KModel, Input as KInput
+  from qkeras.utils import convert_to_folded_model
+
+  def consumers(model):
+    cons = {l.name: [] for l in model.layers}
+
+    def walk(o, dst):
+      if isinstance(o, dict):
+        if "keras_history" in o.get("config", {}):
+          cons[o["config"]["keras_history"][0]].append(dst)
+        for v in o.values():
+          walk(v, dst)
+      elif isinstance(o, (list, tuple)):
+        for v in o:
+          walk(v, dst)
+    for lc in model.get_config()["layers"]:
+      walk(lc.get("inbound_nodes", []), lc["name"])
+    return cons
+  n_conv = n_conv_ok = 0
+  for ti in range(8 if rep.tier == "quick" else 40):
+    topo = ["sequential", "skip_before_bn", "parallel", "conv_is_also_output", "skip_after_bn", "depthwise_skip_before_bn", "bn_without_conv", "two_consumers_one_bn"][ti % 8]
+    i_ = KInput((6, 6, 2), name=f"ci{ti}")
+    mk = lambda n_: KL.Conv2D(2, int(rng.integers(1, 4)), padding="same", name=n_)
+    outs = None
+    if topo == "sequential":
+      x_ = KL.BatchNormalization(name=f"bn{ti}_a")(mk(f"conv{ti}_a")(i_))
+      x_ = KL.BatchNormalization(name=f"bn{ti}_b")(mk(f"conv{ti}_b")(x_))
+    elif topo == "skip_before_bn":
+      a_ = mk(f"conv{ti}_a")(i_)
+      x_ = KL.BatchNormalization(name=f"bn{ti}_b")(mk(f"conv{ti}_b")(KL.BatchNormalization(name=f"bn{ti}_a")(a_)))
+      x_ = KL.Add(name=f"add{ti}")([a_, x_])
+    elif topo == "parallel":
+      x_ = KL.Add(name=f"add{ti}")([KL.BatchNormalization(name=f"bn{ti}_a")(mk(f"conv{ti}_a")(i_)), KL.BatchNormalization(name=f"bn{ti}_b")(mk(f"conv{ti}_b")(i_))])
+    elif topo == "conv_is_also_output":
+      a_ = mk(f"conv{ti}_a")(i_)
+      x_ = KL.BatchNormalization(name=f"bn{ti}_a")(a_)
+      outs = [x_, a_]
+    elif topo == "skip_after_bn":
+      a_ = KL.BatchNormalization(name=f"bn{ti}_a")(mk(f"conv{ti}_a")(i_))
+      x_ = KL.Add(name=f"add{ti}")([a_, KL.BatchNormalization(name=f"bn{ti}_b")(mk(f"conv{ti}_b")(a_))])
+    elif topo == "depthwise_skip_before_bn":
+      a_ = KL.DepthwiseConv2D(3, padding="same", name=f"dw{ti}_a")(i_)
+      x_ = KL.Multiply(name=f"mul{ti}")([a_, KL.BatchNormalization(name=f"bn{ti}_a")(a_)])
+    elif topo == "bn_without_conv":
+      x_ = KL.BatchNormalization(name=f"bn{ti}_a")(KL.Activation("relu", name=f"act{ti}")(mk(f"conv{ti}_a")(i_)))
+    else:
+      a_ = mk(f"conv{ti}_a")(i_)
+      x_ = KL.Concatenate(name=f"cat{ti}")([KL.BatchNormalization(name=f"bn{ti}_a")(a_), KL.Activation("tanh", name=f"act{ti}")(a_)])
+    km = KModel(i_, outs if outs is not None else x_, name=f"km{ti}")
+    cons = consumers(km)
+    outnames = {t_._keras_history.operation.name if hasattr(t_._keras_history, "operation") else t_._keras_history[0].name for t_ in km.outputs}
+    kinds_ = {l.name: type(l).__name__ for l in km.layers}
+    want_fold = sorted(n_ for n_, k_ in kinds_.items() if k_ in ("Conv2D", "DepthwiseConv2D") and len(cons[n_]) == 1 and kinds_[cons[n_][0]] == "BatchNormalization" and n_ not in outnames)
+    try:
+      nm_, ltf_ = convert_to_folded_model(km)
+    except Exception as e:  # pylint: disable=broad-except
+      rep.violation(f"convert-to-folded-raises-{ti}", f"convert_to_folded_model on the {topo} model raised {type(e).__name__}: {str(e)[:200]}", {"topology": topo})
+      continue
+    n_conv += 1
+    removed = sorted(set(kinds_) - {l.name for l in nm_.layers})
+    want_removed = sorted(cons[n_][0] for n_ in want_fold)
+    if topo == "conv_is_also_output" and sorted(ltf_) == [f"conv{ti}_a"] and len(nm_.outputs) < len(km.outputs):
+      rep.finding("C15-convert-to-folded-model-ignores-intermediate-outputs", f"convert_to_folded_model on a model whose convolution output is also a model output folds {ltf_} and "
+                  f"returns a model with {len(nm_.outputs)} outputs instead of {len(km.outputs)}", {"topology": topo})
+    elif sorted(ltf_) != want_fold or removed != want_removed:
+      rep.violation(f"convert-to-folded-{ti}", f"convert_to_folded_model on the {topo} model folds {sorted(ltf_)} and removes {removed}; a convolution may only be folded when its "
+                    f"batch normalisation is its ONLY consumer: expected {want_fold}, removing {want_removed} (consumers: { {k_: v_ for k_, v_ in cons.items() if 'conv' in k_ or 'dw' in k_} })",
+                    {"topology": topo})
+    else:
+      n_conv_ok += 1
+  rep.note(convert_to_folded_models=n_conv, fold_lists_as_expected=n_conv_ok)
 
 
 def main():
